@@ -120,6 +120,28 @@ Theorem table_emptied_keeps_working : forall (K V : Type) (keq : K -> K -> bool)
 Proof. exact TableProofs.T_emptied_keeps_working. Qed.
 Print Assumptions table_emptied_keeps_working.
 
+(* the outcome does not depend on the hash function (collisions, wrap-around, rehash order) ... *)
+Theorem table_hash_independent : forall (K V : Type) (keq : K -> K -> bool) (hash1 hash2 : K -> N),
+  (forall a b, keq a b = true <-> a = b) ->
+  forall (ops : list (op K V)),
+  let t1 := T_run K V keq hash1 ops in let t2 := T_run K V keq hash2 ops in
+  (forall o, snd (T_step K V keq hash1 t1 o) = snd (T_step K V keq hash2 t2 o)) /\
+  t_len K V t1 = t_len K V t2 /\ Permutation (t_iter K V t1) (t_iter K V t2).
+Proof. exact TableProofs.T_hash_independent. Qed.
+Print Assumptions table_hash_independent.
+
+(* ... nor on the order in which the operations were issued, as long as they leave the same bindings *)
+Theorem table_order_independent : forall (K V : Type) (keq : K -> K -> bool) (hash : K -> N),
+  (forall a b, keq a b = true <-> a = b) ->
+  forall (ops1 ops2 : list (op K V)),
+  let t1 := T_run K V keq hash ops1 in let t2 := T_run K V keq hash ops2 in
+  let m1 := spec_run K V keq ops1 [] in let m2 := spec_run K V keq ops2 [] in
+  (forall k, a_get K V keq m1 k = a_get K V keq m2 k) ->
+  (forall o, snd (T_step K V keq hash t1 o) = snd (T_step K V keq hash t2 o)) /\
+  t_len K V t1 = t_len K V t2 /\ Permutation (t_iter K V t1) (t_iter K V t2).
+Proof. exact TableProofs.T_order_independent. Qed.
+Print Assumptions table_order_independent.
+
 (* Table_New with initial pairs (later pairs win) and Table_Assign from another Table *)
 Theorem table_new_refines : forall (K V : Type) (keq : K -> K -> bool) (hash : K -> N),
   (forall a b, keq a b = true <-> a = b) ->
